@@ -72,6 +72,9 @@ type UEParams struct {
 	// 3 repeated well-formed decoy PDU address IEs (29 05 01 a.b.c.d).
 	Fill     int `json:"fill,omitempty"`
 	CauseVal int `json:"cause_val,omitempty"` // 5GSM cause value when the cause IE is present (default #50)
+	// SvcReject, if not 0, makes the AMF answer this UE's SERVICE REQUEST with a SERVICE REJECT (5GMM
+	// cause) in a DownlinkNASTransport instead of setting the context up.
+	SvcReject int `json:"svc_reject,omitempty"`
 	// NFlows is the number of QoS flows in the setup request transfer (0 = one).
 	NFlows int `json:"n_flows,omitempty"`
 	// EstReject, if not 0, makes the SMF answer this UE's PDU SESSION ESTABLISHMENT REQUEST with a
